@@ -67,14 +67,22 @@ def run(ctx):
                 "of the recovery session. Non-trivial: offset strictly inside the stream (a torn or partial session); "
                 "distinct by (session, offset).")
     ctx.assumptions += [
-        "A-io: a crash leaves a prefix of the program-order byte stream of the session (OS-level reordering across a power failure is outside the model)",
+        "A-io: a crash leaves a prefix of the program-order sequence of file-mutating calls of the session — write() calls byte by byte, resizing calls as a whole (OS-level reordering across a power failure is outside the model)",
     ]
     pr = ctx.proof(props=["Molli.Props.C03"], gen=["UkvLayout"])
 
     work = ctx.scratch
     nsessions = 14 if ctx.quick() else 50
     corpus = ukvlib.load_corpus("C03")
-    sessions = corpus + [gen_session(ctx.rng, ctx.quick()) for _ in range(nsessions)]
+    # directed: a library WITHOUT committed records (the torn tail starts right behind the file header), a long zero-filled
+    # first record (what survives of it behind a shorter recovery record parses as blocks), short recovery records
+    directed = [
+        {"h2": b"", "b0": b"", "committed": [], "session": [(b"alpha", b"\x00" * 60)], "extra": (b"b", b""), "extra2": (b"", b"\x00")},
+        {"h2": b"hi", "b0": b"\x00\x01\x02", "committed": [], "session": [(b"", b"\x00" * 40), (b"k", b"v")], "extra": (b"x", b"y"),
+         "extra2": (b"zz", b"")},
+        {"h2": b"", "b0": b"", "committed": [(b"", b"")], "session": [(b"q", b"\x00" * 50)], "extra": (b"r", b""), "extra2": (b"s", b"\x00\x00")},
+    ]
+    sessions = corpus + directed + [gen_session(ctx.rng, ctx.quick()) for _ in range(nsessions)]
 
     requests = []   # (line, expected-impl-output, description)
     for si, s in enumerate(sessions):
@@ -93,7 +101,28 @@ def run(ctx):
         # the same history with one more handle (4) that cached the committed library and was closed before the session
         pre_stale = list(pre_ops[:-1]) + ["new 4 r - - -", "close 4", "new 1 a - - -"] + [f"put 1 {hx(k)} {hx(v)}" for k, v in s["session"]]
         pre_ops += [f"put 1 {hx(k)} {hx(v)}" for k, v in s["session"]]
+        ops_all = stream
+        stream = ukvlib.only_writes(ops_all)
         total = sum(len(d) for _, d in stream)
+        if len(ops_all) != len(stream):
+            # the session resizes the file besides writing to it (the unchanged put() does not): a death between two such
+            # calls leaves a file that is NOT a prefix of the write stream — every such point is judged by the oracle alone
+            ctx.count("sessions_with_resizing_calls")
+            history0 = dict(s["committed"]) | dict(s["session"])
+            for kk in range(len(ops_all) + 1):
+                jmax = len(ops_all[kk][1]) if kk < len(ops_all) and ops_all[kk][0] != "truncate" else 1
+                for jj in range(jmax):
+                    img = ukvlib.apply_ops(base, ops_all, kk, jj)
+                    tag = {"session": ukvlib.session_json(s), "death_after_calls": kk, "bytes_of_next_write": jj,
+                           "offset": f"call {kk} + {jj} bytes"}
+                    ipath = work / "imgx.ukv"
+                    ipath.write_bytes(img)
+                    obs_r = ukvlib.observe_open(ipath, "r", list(history0.keys()))
+                    ukvlib.oracle_crash(ctx, "r", obs_r, dict(s["committed"]), dict(s["session"]), s["session"], tag)
+                    ipath.write_bytes(img)
+                    obs_a = ukvlib.observe_append(ipath, s["extra"][0], s["extra"][1], list(history0.keys()) + [s["extra"][0]])
+                    ukvlib.oracle_append(ctx, obs_a, dict(s["committed"]), s["session"], s["extra"], tag)
+                    ctx.count("images_between_resizing_calls")
         ctx.count("sessions")
         ctx.count(f"session_puts={len(s['session'])}")
         history = dict(s["committed"]) | dict(s["session"])
@@ -160,6 +189,17 @@ def run(ctx):
             except Exception as e:
                 ctx.disagree("recovery session raised", {"session": ukvlib.session_json(s), "offset": n}, f"{type(e).__name__}: {e}", "ok")
                 continue
+            ops2 = stream2
+            stream2 = ukvlib.only_writes(ops2)
+            if len(ops2) != len(stream2):
+                sess_all0 = dict(s["session"]) | {s["extra"][0]: s["extra"][1], s["extra2"][0]: s["extra2"][1]}
+                for kk in range(len(ops2) + 1):
+                    img2 = ukvlib.apply_ops(base2, ops2, kk, 0)
+                    jpath = work / "img3x.ukv"
+                    jpath.write_bytes(img2)
+                    obs = ukvlib.observe_open(jpath, "r", list(history.keys()) + [s["extra"][0], s["extra2"][0]])
+                    ukvlib.oracle_crash(ctx, "second", obs, committed, sess_all0, None,
+                                        {"session": ukvlib.session_json(s), "offset": n, "second_death_after_calls": kk})
             total2 = sum(len(d) for _, d in stream2)
             offs2 = sorted(set([0, 3, 6, total2 // 2, total2 - 1, total2])) if ctx.quick() else range(0, total2 + 1)
             for n2 in offs2:
